@@ -2,6 +2,7 @@ package checks
 
 import (
 	"fmt"
+	"strconv"
 	"strings"
 	"sync"
 	"time"
@@ -19,6 +20,20 @@ type tvOpts struct {
 	Mode     string // "subset" or "lookalike"
 	Validate bool   // compare Go and GooseLang behaviour of every case
 	Census   string // "", "order" (C04: names, uniqueness, definition order), "errors" (C07: totality on the corpus), "all"
+	// Random corpora: wall-clock budget per function and solver time-out per query (0 = defaults)
+	CaseDeadlineS  int
+	QueryTimeoutMs int
+}
+
+// tvRandom validates a grammar-derived corpus: rejected, or accepted and equivalent; every
+// function gets a wall-clock budget so that one solver-hard program cannot stall the check (it
+// is then reported as inconclusive, not as held).
+func tvRandom(ctx *RunCtx, pkgs []*tv.Package) error {
+	o := tvOpts{Mode: "lookalike", Validate: true, CaseDeadlineS: 20, QueryTimeoutMs: 5000}
+	if ctx.Tier == "thorough" {
+		o.CaseDeadlineS, o.QueryTimeoutMs = 120, 20000
+	}
+	return tvRunOpts(ctx, pkgs, o)
 }
 
 func tvRun(ctx *RunCtx, pkgs []*tv.Package, mode string) error {
@@ -36,22 +51,39 @@ func tvRunOpts(ctx *RunCtx, pkgs []*tv.Package, o tvOpts) error {
 	if ctx.Tier == "thorough" {
 		bounds.MaxSlice, bounds.MaxStr, bounds.TimeoutMs = 3, 3, 60000
 	}
+	if o.CaseDeadlineS > 0 {
+		bounds.DeadlineS, bounds.TimeoutMs = o.CaseDeadlineS, o.QueryTimeoutMs
+		bounds.MaxSlice, bounds.MaxStr = 2, 2
+	}
 	nfunc, ncompared, nrejected, nskipped := 0, 0, 0, 0
+	// functions of all packages are validated by one pool of 16 workers while the following
+	// packages are being translated
+	var mu sync.Mutex
+	var wg sync.WaitGroup
+	sem := make(chan struct{}, 16)
+	var firstErr error
+	defer wg.Wait()
 	for qi := 0; qi < len(pkgs); qi++ {
 		p := pkgs[qi]
 		if err := d.WritePackage(p); err != nil {
 			return err
 		}
 		tr := d.Translate(p)
+		mu.Lock()
 		ctx.Programs += len(p.Cases)
+		mu.Unlock()
 		if tr.Crashed && len(p.Cases) > 1 {
 			// isolate the declaration that crashes goose: one package per case
 			pkgs = append(pkgs, p.Singletons()...)
+			mu.Lock()
 			ctx.Programs -= len(p.Cases)
+			mu.Unlock()
 			continue
 		}
 		if tr.Crashed {
+			mu.Lock()
 			ctx.addTVViolation(p, &p.Cases[0], "goose/crash", fmt.Sprintf("goose exited with status %d (not a structured error): %s", tr.Exit, firstLines(tr.Stderr, 6)), tr, nil)
+			mu.Unlock()
 			continue
 		}
 		if tr.V == "" {
@@ -60,9 +92,13 @@ func tvRunOpts(ctx *RunCtx, pkgs []*tv.Package, o tvOpts) error {
 		file, perr := gl.Parse(tr.V)
 		if perr != nil {
 			if _, isLex := perr.(*gl.LexError); isLex {
+				mu.Lock()
 				ctx.addTVViolation(p, nil, "output/lexically-well-formed", perr.Error(), tr, nil)
+				mu.Unlock()
 			} else {
+				mu.Lock()
 				ctx.Inconcl = append(ctx.Inconcl, fmt.Sprintf("package %s: output uses a form the GooseLang parser does not know: %v", p.Name, perr))
+				mu.Unlock()
 			}
 			continue
 		}
@@ -71,7 +107,9 @@ func tvRunOpts(ctx *RunCtx, pkgs []*tv.Package, o tvOpts) error {
 			switch is.Kind {
 			case "unknown-ident":
 				if o.Validate {
+					mu.Lock()
 					ctx.Inconcl = append(ctx.Inconcl, fmt.Sprintf("package %s: %s", p.Name, is))
+					mu.Unlock()
 				}
 			}
 		}
@@ -94,9 +132,13 @@ func tvRunOpts(ctx *RunCtx, pkgs []*tv.Package, o tvOpts) error {
 						break
 					}
 				}
+				mu.Lock()
 				ctx.addTVViolation(p, cc, ci.Label, ci.Detail, tr, nil)
+				mu.Unlock()
 			}
+			mu.Lock()
 			ctx.Extra["declarations_counted"] = intExtra(ctx, "declarations_counted") + len(glp.Defs)
+			mu.Unlock()
 		}
 		if !o.Validate {
 			continue
@@ -105,10 +147,6 @@ func tvRunOpts(ctx *RunCtx, pkgs []*tv.Package, o tvOpts) error {
 		if err != nil {
 			return fmt.Errorf("generated package %s does not load (generator bug): %v", p.Name, err)
 		}
-		var mu sync.Mutex
-		var wg sync.WaitGroup
-		sem := make(chan struct{}, 16)
-		var firstErr error
 		for _, c := range p.Cases {
 			c := c
 			wg.Add(1)
@@ -208,15 +246,26 @@ func tvRunOpts(ctx *RunCtx, pkgs []*tv.Package, o tvOpts) error {
 				}
 			}()
 		}
-		wg.Wait()
-		if firstErr != nil {
-			return firstErr
+		mu.Lock()
+		fe := firstErr
+		mu.Unlock()
+		if fe != nil {
+			break
 		}
 	}
-	ctx.Extra["functions"] = nfunc
-	ctx.Extra["functions_compared"] = ncompared
-	ctx.Extra["functions_rejected_by_goose"] = nrejected
-	ctx.Extra["functions_not_compared"] = nskipped
+	wg.Wait()
+	if firstErr != nil {
+		return firstErr
+	}
+	ctx.Extra["functions"] = intExtra(ctx, "functions") + nfunc
+	ctx.Extra["functions_compared"] = intExtra(ctx, "functions_compared") + ncompared
+	ctx.Extra["functions_rejected_by_goose"] = intExtra(ctx, "functions_rejected_by_goose") + nrejected
+	ctx.Extra["functions_not_compared"] = intExtra(ctx, "functions_not_compared") + nskipped
+	if o.CaseDeadlineS > 0 {
+		ctx.Extra["random_functions"] = intExtra(ctx, "random_functions") + nfunc
+		ctx.Extra["random_functions_compared"] = intExtra(ctx, "random_functions_compared") + ncompared
+		ctx.Extra["random_functions_rejected_by_goose"] = intExtra(ctx, "random_functions_rejected_by_goose") + nrejected
+	}
 	return nil
 }
 
@@ -250,15 +299,36 @@ func init() {
 		ID:    "C01",
 		Level: "translation_validation",
 		Custom: func(ctx *RunCtx) error {
-			return tvRun(ctx, gen.Subset(ctx.TierN()), "subset")
+			if err := tvRun(ctx, gen.Subset(ctx.TierN()), "subset"); err != nil {
+				return err
+			}
+			// grammar-derived programs (fixed seeds): rejected, or accepted and equivalent
+			return tvRandom(ctx, randomCorpus(ctx.TierN()))
 		},
-		Bounds: "programs: the generated subset corpus (gen.Subset; one translation rule or rule×context per function, compositions in thorough); inputs: all values of uint64/uint32/byte/bool, strings ≤ 2 (3) bytes, slices ≤ 2 (3) elements incl. nil and spare capacity, pointers to fresh structs, maps ≤ 2 entries; loop-controlling arguments ≤ 3",
+		Bounds: "programs: the generated subset corpus (gen.Subset; one translation rule or rule×context per function, compositions in thorough) plus grammar-derived programs with fixed seeds (gen.Random: 160 functions of statement depth ≤ 3 in quick, 4 seeds × 400 in thorough; nested if/else, early returns, three-clause / condition-only / range loops with break and continue, var and := bindings of eight types, stores through pointers, slices and maps, helper calls; multiplication/division only by literals; relation on these: rejected, or accepted and equivalent; 20 s (120 s) wall-clock per function, 5 s (20 s) per query, over-budget functions are reported inconclusive); inputs: all values of uint64/uint32/byte/bool, strings ≤ 2 (3) bytes, slices ≤ 2 (3) elements incl. nil and spare capacity, pointers to fresh structs, maps ≤ 2 entries; loop-controlling arguments ≤ 3",
 		Assumptions: []string{
 			"the GooseLang model (gl/) gives library functions their intended (Go) meaning; calibrated by requiring agreement on all non-failing tests of internal/examples/semantics and disagreement on exactly the failing_ ones",
 			"paths on which Go panics are not compared; argument expressions of generated programs are side-effect free (GooseLang's right-to-left argument order is a documented divergence)",
 		},
 		Trusted: []string{"gosym executor", "z3 4.8.12", "GooseLang model (parser levels, library meanings)", "go/ssa as Go semantics"},
 	})
+}
+
+// randomCorpus: the grammar-derived part of the C01 corpus (see gen/random.go).
+func randomCorpus(level int) []*tv.Package {
+	n, _ := strconv.Atoi(envOr("VERIF_RANDOM_N", "0"))
+	if n > 0 {
+		seed, _ := strconv.Atoi(envOr("VERIF_RANDOM_SEED", "1"))
+		return gen.Random(int64(seed), n, 3)
+	}
+	if level == 0 {
+		return gen.Random(1, 160, 3)
+	}
+	var out []*tv.Package
+	for seed := int64(1); seed <= 4; seed++ {
+		out = append(out, gen.Random(seed, 400, 3)...)
+	}
+	return out
 }
 
 var _ = engine.Unsat
